@@ -58,6 +58,8 @@ def check(case: Dict[str, Any]) -> CaseInfo:
     require(all(r["sum"] >= 0 for _, r in type_df.iterrows()), "type:nonneg", lambda: type_df.to_string())
     require(got_types == exp_types, "type:combination_times", lambda: f"expected {exp_types}, got {got_types}")
     require(sum(got_types.values()) == busy_total, "type:sum_is_union", lambda: f"{got_types} vs union {busy_total}")
+    if busy_total > 0 and any(0 < m < 0.0005 * busy_total for m in exp_types.values()):
+        classes.append("combination_share_below_percentage_rounding")
     if busy_total > 0:
         pct_sum = 0.0
         for _, r in type_df.iterrows():
@@ -218,7 +220,7 @@ def check_ann(case: Dict[str, Any]) -> CaseInfo:
 def campaigns(tier: str) -> List[Campaign]:
     return [Campaign("breakdown", c05_case(), check, quick=400, thorough=20000, quick_shards=8,
                      required_classes={"type_overlap": 0.3, "others_bucket": 0.15, "with_memory": 0.2, "multi_rank": 0.1,
-                                       "repeated_name": 0.2},
+                                       "repeated_name": 0.2, "combination_share_below_percentage_rounding": 0.02},
                      sample_view=view),
             Campaign("annotations", ann_case(), check_ann, quick=240, thorough=8000, quick_shards=4,
                      required_classes={"others_bucket": 0.15, "gpu_annotations": 0.2, "cpu_annotations": 0.2},
